@@ -451,6 +451,22 @@ class SimSocket(object):
     ordinal = conn.ops['send']
     conn.ops['send'] += 1
     f = self.net.fault_for(conn.server, conn, 'send', ordinal)
+    if f is not None and f.kind == 'transient':
+      # a condition that passes (ENOBUFS, EAGAIN, EINTR) reported after part of the buffer was accepted:
+      # the connection itself is fine, the accepted prefix is on its way to the peer
+      data = bytes(data)
+      k = max(0, min(getattr(f, 'after', 0), len(data) - 1))
+      self.net.faults_fired.append(((conn.server.ep, conn.ordinal, 'send', ordinal), 'transient', env.now))
+      self.net.fault_plan = dict((k_, v_) for k_, v_ in self.net.fault_plan.items() if v_ is not f)
+      if k and not conn.server_closed:
+        start = len(conn.c2s)
+        ev = env.emit('net.send', conn=conn.id, op=ordinal, n=k, start=start, part=0)
+        conn.sends.append((start, start + k, ev['seq'], ev['vt']))
+        conn.c2s += data[:k]
+        if conn.handler is not None and not conn.client_closed:
+          conn.handler.on_data(conn)
+      env.emit('net.send.fault', conn=conn.id, op=ordinal, fault='transient', accepted=k)
+      raise _oserr(f.err)
     if f is not None and f.kind in ('error', 'eof', 'refuse'):
       env.emit('net.send.fault', conn=conn.id, op=ordinal, fault=f.kind)
       conn.server_closed = conn.server_closed or 'rst'
